@@ -182,21 +182,49 @@ func C19(c *core.Ctx) {
 			return core.FindCallsDeep(fu, core.CalleeID{Pkg: "dv/table", Recv: "Fib", Name: name})
 		}
 		unmark, upd, mark, sweep := call("UnmarkAll"), call("UpdateH"), call("MarkH"), call("RemoveUnmarked")
-		ok := len(unmark) == 1 && len(upd) >= 1 && len(mark) >= 1 && len(sweep) == 1
+		ok := len(unmark) >= 1 && len(upd) >= 1 && len(mark) >= 1 && len(sweep) >= 1
 		if ok {
-			isUnmark := func(in ssa.Instruction) bool { return in == ssa.Instruction(unmark[0]) }
-			isSweep := func(in ssa.Instruction) bool { return in == ssa.Instruction(sweep[0]) }
+			// (a branch of its own for "nothing to install" may hold a second bracket)
+			isUnmark := func(in ssa.Instruction) bool {
+				for _, x := range unmark {
+					if in == ssa.Instruction(x) {
+						return true
+					}
+				}
+				return false
+			}
+			isSweep := func(in ssa.Instruction) bool {
+				for _, x := range sweep {
+					if in == ssa.Instruction(x) {
+						return true
+					}
+				}
+				return false
+			}
 			for _, u := range append(append([]ssa.CallInstruction{}, upd...), mark...) {
 				if !core.PrecedesDeep(fu, u, isUnmark) || !core.MustFollowDeep(fu, core.After(u), isSweep, nil).OK {
 					ok = false
 				}
+				// nothing is unmarked again between a mark and the sweep
+				for _, x := range unmark {
+					if core.ReachableAfterDeep(fu, u, x) {
+						ok = false
+					}
+				}
 			}
-			if core.InLoop(unmark[0].Block()) || core.InLoop(sweep[0].Block()) {
-				ok = false
+			for _, x := range unmark {
+				if core.InLoop(x.Block()) {
+					ok = false
+				}
+				// the sweep runs on every path of the function (also when nothing is desired)
+				if !core.MustFollowDeep(fu, core.After(x), isSweep, nil).OK {
+					ok = false
+				}
 			}
-			// the sweep runs on every path of the function (also when nothing is desired)
-			if !core.MustFollowDeep(fu, core.After(unmark[0]), isSweep, nil).OK {
-				ok = false
+			for _, x := range sweep {
+				if core.InLoop(x.Block()) {
+					ok = false
+				}
 			}
 			// ... and on every path from the function entry: an early return before the
 			// bracket ("nothing to install") would leave the previous routes registered
